@@ -3,6 +3,13 @@
 import json, sys
 
 CLAIMED = {
+ "C14": dict(
+   category="model_checking",
+   text="(a) Chunking: every phase of 0..3 (quick) / 0..4 (thorough) objects whose JSON sizes come from {L/3, L/2-1, L/2, L/2+1, L-1, L, L+1} around the real 1 MiB limit, for NoOp, EachObject and BinpackNextFit: in-order concatenation of the chunks equals the input, no empty chunk, no multi-object chunk above L. Slice names through the real Package controller + PackageDeployer: equal for equal content, different for different content; after a third party tampers with a slice (other content / other controller) a re-deploy of the same spec must not reference the occupied name, an untouched equal slice is reused. (b) Differential: scripted fair histories (rollout with objects becoming ready, then nothing / archive / delete / probe regression + pause + unpause / regression + archive) are run on an ObjectSet with inline objects and on the same ObjectSet with every phase in an ObjectSlice (2-3 phases, local and delegated); after every step the projected cluster state and ObjectSet status (lifecycle, finalizer, condition type/status/reason, controllerOf) must be equal. (c) Explicit-state BFS over Package updates v1{a,b} -> v2{a,c} -> v1 with the real Package, ObjectDeployment and ObjectSet controllers in any order: every ObjectSlice delete must hit a slice referenced neither by the deployment template nor by any existing ObjectSet at that instant.",
+   design_ref="DESIGN.md §7 C14",
+   note="Trusted: kmodel; the differential runs scripted fair schedules (not all interleavings) and compares state projections, not request sequences.",
+   technique="bounded-exhaustive input enumeration + differential replay of scripted histories on the real controllers + explicit-state BFS with a request-level monitor",
+   engine="world"),
  "C16": dict(
    category="exploration",
    text="Explicit-state BFS over the real Package controller and PackageDeployer with a scripted registry: Package p whose image is switched among 11 classes {valid v1, valid v2, templated, not in the registry, no manifest, two manifests, malformed object YAML, object without phase annotation, OpenShift-only, Kubernetes >= 1.30, uniqueInScope} and whose config among {none, x:1, x:2, schema-violating}, 2 (quick) / 3 (thorough) edits in any order, pause/unpause, every fault kind (error before effect, lost response, crash) at every API call of the Package pass, environments Kubernetes 1.27 and OpenShift 4.12, optionally a twin Package with the same manifest name. Monitor on every Package pass: an inadmissible package (pull, load, object validation, config schema, platform / version / uniqueness constraint for this environment) never leads to a create or template change of the ObjectDeployment; pull failures persist Unpacked=False, load failures and unmet constraints persist Invalid=True; a spec unchanged since the last successful unpack causes zero pulls and zero template writes; after a completed pass on a valid changed spec the ObjectDeployment's template equals a fresh render of the new spec computed by calling the render pipeline directly (differential oracle); a paused Package pauses its ObjectDeployment and does nothing else (C09's Package clause).",
